@@ -3,7 +3,7 @@
 From LC Require Import Lib.Bytes Lib.Lex Lib.Fields Lib.PathM Gen.Consts
   Model.MountInfo Model.FsTree Model.Kernel Model.Layers Cases.Verdict Cases.LC Cases.C08
   Proofs.C08DocP Proofs.C08P Proofs.C08ProbeP Proofs.C08MountedP Proofs.C08ShallowP
-  Proofs.SourcesP Proofs.C08SourcesP Proofs.C08ExamplesP.
+  Proofs.SourcesP Proofs.C08SourcesP Proofs.C08ExamplesP Proofs.LayerNamesDistinctP.
 Open Scope N_scope.
 Import LC LCS.
 
@@ -33,11 +33,12 @@ Proof. intros H1 H2 H3. apply mounted_means_complete; [exact H2|now apply dir_te
 Theorem state_is_documented_syntactic cfg w e um :
   wf_cfg cfg = true -> cfg_dirs_ok cfg = true ->
   wf_table (ks_tab (wo_ks w)) = true -> regular_table (ks_tab (wo_ks w)) = true ->
-  layer_names_distinct cfg w = true -> sources_shallow cfg w = true ->
+  fs_paths_ok (wo_fs w) = true -> sources_shallow cfg w = true ->
   own_mounts_shown cfg w = true -> no_foreign_on_missing_source cfg w = true ->
   C08.step_spec cfg w (view_of_model cfg w e CProbe um) = true.
 Proof.
   intros H1 H2 H3 H4 H5 H6 H7 H8. apply state_is_documented_partial; try assumption.
+  - apply layer_names_distinct_of_paths; [|exact H5]. unfold wf_cfg in H1. rewrite !andb_true_iff in H1. tauto.
   - now apply sources_agree_of_shown.
   - now apply dir_test_agrees_of_shallow.
 Qed.
@@ -45,7 +46,7 @@ Qed.
 Example C08_syntactic_hyps_nontrivial :
   wf_cfg ex_cfg = true /\ cfg_dirs_ok ex_cfg = true
   /\ wf_table (ks_tab (wo_ks ex_w1)) = true /\ regular_table (ks_tab (wo_ks ex_w1)) = true
-  /\ layer_names_distinct ex_cfg ex_w1 = true /\ sources_shallow ex_cfg ex_w1 = true
+  /\ fs_paths_ok (wo_fs ex_w1) = true /\ sources_shallow ex_cfg ex_w1 = true
   /\ own_mounts_shown ex_cfg ex_w1 = true /\ no_foreign_on_missing_source ex_cfg ex_w1 = true
-  /\ sources_shallow ex_cfg w_deep = false.
+  /\ sources_shallow ex_cfg w_deep = false /\ fs_paths_ok (wo_fs w_dup) = false.
 Proof. vm_compute. repeat split; reflexivity. Qed.
